@@ -17,7 +17,7 @@ path on a disposed subject; callbacks re-enter the subject through their reactio
 Times are `Nat` ticks (the harness uses integer virtual times; `TestScheduler` maps tick t to t seconds).
 -/
 
-namespace Replay
+namespace SubjReplay
 open Subj (Action Call upd disposedExn)
 
 abbrev Id := Nat
@@ -369,4 +369,4 @@ where
 def run (cfg : Cfg) (fuel : Nat) (calls : List (Nat × Call α)) : St α :=
   steps cfg fuel (schedule calls)
 
-end Replay
+end SubjReplay
